@@ -63,6 +63,7 @@ def _parse_exc(stderr):
 def generate(req, env=None, hashseed="0", timeout=300, cwd=None):
     """req: CodeGeneratorRequest or bytes.  Returns GenResult."""
     data = req if isinstance(req, bytes) else req.SerializeToString()
+    timeout = timeout * float(os.environ.get("VERIF_GEN_TIMEOUT_SCALE") or 1)
     try:
         p = subprocess.run([PY, "-m", "gapic.cli.generate"], input=data,
                            capture_output=True, env=gen_env(env, hashseed),
